@@ -114,7 +114,7 @@ where
         let rc = RigCfg {
             npeers: 4,
             dial_concurrency: cfg.get("concurrency").and_then(|x| x.as_u64()).unwrap_or(8) as u8,
-            idle_timeout_ms: 0,
+            idle_timeout_ms: cfg.get("idle_ms").and_then(|x| x.as_u64()).unwrap_or(0),
             notify_buffer: cfg.get("notify_buffer").and_then(|x| x.as_u64()).unwrap_or(8) as usize,
             per_conn_event_buffer: 7,
             smart_dial: false,
